@@ -566,7 +566,9 @@ impl<Backing : AsRef<[u32]> + AsMut<[u32]>> DrawTarget<Backing> {
                 mask: current_mask.clone(),
             },
             _ => Clip {
-                rect: rect,
+                // the clip bounds size layers and clip masks are indexed in device space
+                // so never let them grow past the surface
+                rect: self.clip_bounds().intersection_unchecked(&rect),
                 mask: None,
             },
         };
